@@ -586,10 +586,15 @@ func ruleRecoveryReplay(c *RC) *RuleResult {
 	if ew := c.A.epochWriter; ew != nil {
 		r.Sites++
 		good := false
+		stale := ""
 		for _, s := range c.epochSites() {
 			if s.Kind == "write" && s.Loc == "ctx.LastChangeViewPayloads" {
 				for _, sn := range s.Snaps {
 					if sn.Val != nil && sn.Val.K == KIndex && sn.Val.Args[0].S == "ctx.ChangeViewPayloads" && sn.Idx != nil && sn.Val.Args[1].S == sn.Idx.S {
+						if sn.Killed["ctx.ChangeViewPayloads"] != 0 {
+							stale = c.Prog.Pos(s.Node)
+							continue
+						}
 						for _, l := range sn.TrailL {
 							if !l.Pos && l.A.Op == "lt" && strings.Contains(l.A.A.S, "ChangeView.NewViewNumber(") && l.A.B.K == KParam {
 								good = true
@@ -599,8 +604,10 @@ func ruleRecoveryReplay(c *RC) *RuleResult {
 				}
 			}
 		}
-		if good {
-			r.ok("LastChangeViewPayloads[i] ← ChangeViewPayloads[i] for entries with NewViewNumber ≥ view")
+		if stale != "" {
+			r.fail(ew.Name+"/last-cv-refresh-after-clear", stale, "LastChangeViewPayloads is refreshed from ChangeViewPayloads after that table was already re-initialised in the same reset: the carried-over change views are all nil and recovery messages lose the evidence for the current view")
+		} else if good {
+			r.ok("LastChangeViewPayloads[i] ← ChangeViewPayloads[i] for entries with NewViewNumber ≥ view, read before the table is cleared")
 		} else {
 			r.fail(ew.Name+"/last-cv-refresh", c.Prog.Pos(ew.Decl), "LastChangeViewPayloads is not refreshed from the ChangeView payloads that justified the view change")
 		}
